@@ -290,3 +290,42 @@ Fixpoint mismatches_go (i : N) (l : list wcase) : list (N * N) :=
               if (r =? 0) then mismatches_go (i + 1) t else (i, r) :: mismatches_go (i + 1) t
   end.
 Definition mismatches (l : list wcase) : list (N * N) := firstn 20 (mismatches_go 0 l).
+
+(* ---------- replay aid: what the model does at each step of a history ---------- *)
+(* per step: (step index, model's result class (0 Ok, 1 Err, 2 Panic; 9 = not a request), for requests
+   1 if the returned key is the one the implementation reported, for GetAccounts the number of accounts) *)
+Section Trace.
+Variable k : wcase.
+Let c : config := k_conf k.
+Fixpoint trace (i : N) (fs : afs) (s : st) (h : list hop) : list (N * N * N) :=
+  match h with
+  | [] => []
+  | o :: h' =>
+      match o with
+      | HRefresh _ => let '(s', r) := Refresh _ _ _ _ _ (inst k) c s in (i, N.of_nat (cls r), 0) :: trace (i + 1) fs s' h'
+      | HAccounts _ => (i, 9, N.of_nat (length (GetAccounts _ s))) :: trace (i + 1) fs s h'
+      | HSign raw _ signer =>
+          let '(s', r) := Sign _ _ _ _ _ (inst k) c s (bexpand raw) tt in
+          (i, N.of_nat (cls r), match r with Ok a => if bytes_eqb a (bexpand signer) then 1 else 0 | _ => 0 end) :: trace (i + 1) fs s' h'
+      | HSignTD a _ signer =>
+          let '(s', r) := SignTypedDataV4 _ _ _ _ _ (inst k) c s (bexpand a) tt in
+          (i, N.of_nat (cls r), match r with Ok a => if bytes_eqb a (bexpand signer) then 1 else 0 | _ => 0 end) :: trace (i + 1) fs s' h'
+      | HGetWF a _ signer =>
+          let '(s', r) := GetWalletFile _ _ _ _ _ (inst k) c s (bexpand a) in
+          (i, N.of_nat (cls r), match r with Ok a => if bytes_eqb a (bexpand signer) then 1 else 0 | _ => 0 end) :: trace (i + 1) fs s' h'
+      | HWrite p kind idx =>
+          let p := bexpand p in
+          let fs' := (p, node_of k kind idx) :: assoc_del p fs in
+          let s1 := set_fs s fs' in
+          let pre := c_path c ++ [slash] in
+          let name := skipn (length pre) p in
+          if k_listener k && has_prefix pre p && negb (has_slash name) then
+            let '(s2, _) := step _ _ _ _ _ (inst k) c s1 (OFsEvent unit unit name (match kind with O => true | _ => false end)) in
+            (i, 9, 0) :: trace (i + 1) fs' s2 h'
+          else (i, 9, 0) :: trace (i + 1) fs' s1 h'
+      | HRemove p => let fs' := assoc_del (bexpand p) fs in (i, 9, 0) :: trace (i + 1) fs' (set_fs s fs') h'
+      end
+  end.
+Definition model_trace : list (N * N * N) :=
+  trace 0 (init_fs k) (init_state _ (fs_of (init_fs k))) (k_hist k).
+End Trace.
